@@ -33,7 +33,13 @@ THEOREMS = [
     "Opacus.C06.sgm_moment_int",
     "Opacus.C06.ratio_is_density",
     "Opacus.C06.log_a_int_correct",
+    "Opacus.C06.compute_rdp_eq_renyi",
+    "Opacus.C06.rdp_q_one",
+    "Opacus.C06.rdp_compose_add",
     "Opacus.C06.rdp_to_dp_sound",
+    "Opacus.C06.min_over_orders_sound",
+    "Opacus.C06.eps_valid_for_history",
+    "Opacus.C06.frac_series_early_stop_counterexample",
 ]
 RULE = (
     "case kinds: (q, sigma, alpha) triples with q log-uniform in [1e-5,1), sigma log-uniform in [0.3,20], alpha from DEFAULT_ALPHAS or "
@@ -47,7 +53,7 @@ RULE = (
 TRUSTED = [
     "scipy.special.binom / log_ndtr, math.log1p / expm1 compute the real functions they name (the Float driver uses Kahan's log1p/expm1)",
     "Mironov-Talwar-Zhang 2019: the RDP of the Poisson-subsampled Gaussian mechanism over all neighbouring datasets is attained on the canonical pair N(0,s^2) vs (1-q)N(0,s^2)+qN(1,s^2) and A_alpha >= B_alpha (cited, not proved)",
-    "adaptive composition of RDP guarantees (Mironov 2017 Prop. 1) is cited; proved here: additivity of the model's RDP over history entries and (Lemmas) multiplicativity of the moment for product measures is NOT formalised",
+    "composition: proved for the NON-adaptive product of the canonical pairs of the recorded steps (product measure, Fubini: eps_valid_for_history); adaptive composition of RDP guarantees (Mironov 2017 Prop. 1) and the add-direction D_alpha(Q||P) <= D_alpha(P||Q) are cited",
     "quadrature oracle: scipy.integrate.quad (cross-checked with mpmath at 40 digits in the thorough tier); PLD lower-bound oracle: own lattice + numpy FFT",
 ]
 PARTIAL = [
